@@ -43,7 +43,7 @@ async def main():
             return 1
     # now the right answer
     right = hci.HCI_Command_Complete_Event(num_hci_command_packets=1, command_opcode=hci.HCI_LE_RAND_COMMAND,
-                                           return_parameters=hci.HCI_LE_Rand_ReturnParameters(status=0, random_number=7))
+                                           return_parameters=hci.HCI_LE_Rand_ReturnParameters(status=0, random_number=bytes(8)))
     host.on_packet(bytes(right))
     r = await asyncio.wait_for(second, 1)
     ok = r.command_opcode == hci.HCI_LE_RAND_COMMAND
